@@ -40,6 +40,7 @@ import (
 	"regexp"
 	"sort"
 	"strings"
+	"sync"
 	"testing"
 	"time"
 
@@ -169,10 +170,17 @@ type caseID struct {
 	Shape   string   `json:"shape"`
 	Pairing string   `json:"pairing"`
 	Program []string `json:"program"`
+	// Fault: "<status>@<METHOD> <path>": the first such request during Apply is answered with that
+	// status (once); "" = a faithful registry
+	Fault string `json:"fault,omitempty"`
 }
 
 func (c caseID) String() string {
-	return fmt.Sprintf("%s | %s | [%s]", c.Shape, c.Pairing, strings.Join(c.Program, ", "))
+	f := ""
+	if c.Fault != "" {
+		f = " | fault " + c.Fault
+	}
+	return fmt.Sprintf("%s | %s | [%s]%s", c.Shape, c.Pairing, strings.Join(c.Program, ", "), f)
 }
 
 type outcome struct {
@@ -184,6 +192,8 @@ type outcome struct {
 	counts     map[string]int64
 	written    int // manifests written to the target during Apply
 	rootFound  bool
+	gets       []string // distinct "GET <path>" answered 200 during Apply, in order of first occurrence
+	faultFired bool
 }
 
 type harness struct {
@@ -330,6 +340,24 @@ func (h *harness) runCase(c caseID) outcome {
 	opts = append(opts, mod.WithRefTgt(rTgt))
 	ctx := warning.NewContext(context.Background(), &warning.Warning{})
 	rt.ResetLog()
+	if c.Fault != "" {
+		st, target, _ := strings.Cut(c.Fault, "@")
+		code := 404
+		fmt.Sscan(st, &code)
+		var fmu sync.Mutex
+		rt.Before = func(req *http.Request) (*http.Response, error) {
+			fmu.Lock()
+			defer fmu.Unlock()
+			if out.faultFired || req.Method+" "+req.URL.Path != target {
+				return nil, nil
+			}
+			out.faultFired = true
+			body := `{"errors":[{"code":"BLOB_UNKNOWN","message":"injected"}]}`
+			return &http.Response{StatusCode: code, Status: fmt.Sprintf("%d injected", code), Proto: "HTTP/1.1", ProtoMajor: 1, ProtoMinor: 1,
+				Header: http.Header{"Content-Type": {"application/json"}, "Content-Length": {fmt.Sprint(len(body))}}, ContentLength: int64(len(body)),
+				Body: io.NopCloser(strings.NewReader(body)), Request: req}, nil
+		}
+	}
 	var rOut ref.Ref
 	func() {
 		defer func() {
@@ -344,6 +372,17 @@ func (h *harness) runCase(c caseID) outcome {
 		}
 	}()
 	reqLog := rt.Log()
+	rt.Before = nil
+	{
+		seen := map[string]bool{}
+		for _, l := range reqLog {
+			k := l.Method + " " + l.Path
+			if l.Method == http.MethodGet && l.Status == 200 && !seen[k] {
+				seen[k] = true
+				out.gets = append(out.gets, k)
+			}
+		}
+	}
 	// what regctl does after a modification: release the references (runs the layout's GC)
 	if !strings.Contains(os.Getenv("VERIF_C13_DEBUG"), "noclose") {
 		_ = rc.Close(ctx, rTgt)
@@ -587,7 +626,7 @@ func TestVerifC13(t *testing.T) {
 		bound += fmt.Sprintf("; plus every program of length 3 over the full alphabet and every program of length 4 over the layer/history family (%s), each x %d shapes x 2 pairings (%s, %s)",
 			strings.Join(layerFamily, " "), len(h.fx.shapes), prs[0].name, prs[3].name)
 	}
-	rec.Rule(bound + "; every case is run twice on fresh identical inputs (determinism) and judged by the independent audit. " +
+	rec.Rule(bound + "; plus, for eight options that rewrite layers, configs or manifests x all shapes x 2 registry pairings, every distinct GET of the fault-free run answered once with 404 (thorough: also 500, 403): Apply may fail, a reported success is judged like any other; every case is run twice on fresh identical inputs (determinism) and judged by the independent audit. " +
 		"distinct_nontrivial = cases (shape, pairing, program) whose Apply succeeded AND produced a digest different from the source's AND whose target closure was audited")
 	rec.Assume("olareg (in memory, behind an in-process RoundTripper) and the file system are faithful stores; Go's gzip/zstd/tar/sha2 implementations are trusted by the auditor")
 	rec.Assume("mod stamps added history with its process start time (SOURCE_DATE_EPOC pinned by the check spec); both runs of a case share that instant")
@@ -677,6 +716,44 @@ func TestVerifC13(t *testing.T) {
 			}
 		}
 	}
+	// ---- one answer of the source registry replaced ------------------------------------------------
+	// For the options that rewrite layers or configs: every distinct GET the fault-free run sends is,
+	// in turn, answered once with 404 (and, thorough, once with 500). Apply may fail; when it reports
+	// success the result is judged like any other.
+	faultOpts := []string{"strip", "layer-time", "rm-idx0", "layer-add", "label", "zstd", "rebase", "to-oci"}
+	faultPrs := []pairing{prs[1], prs[0]}
+	codes := []string{"404"}
+	if rec.Thorough() {
+		codes = append(codes, "500", "403")
+	}
+	for _, sh := range h.fx.shapes {
+		for _, pr := range faultPrs {
+			for _, on := range faultOpts {
+				idx++
+				if !rec.Mine(idx) {
+					continue
+				}
+				if rec.Expired() {
+					rec.NotExhaustive(fmt.Sprintf("wall-clock budget reached in shard %d in the fault block", rec.ShardI))
+					h.vacuity()
+					return
+				}
+				base := caseID{Shape: sh.name, Pairing: pr.name, Program: []string{on}}
+				o := h.runCase(base)
+				if o.err != "" {
+					continue
+				}
+				for _, g := range o.gets {
+					for _, code := range codes {
+						fc := base
+						fc.Fault = code + "@" + g
+						h.judge(fc)
+						rec.Count("cases.fault", 1)
+					}
+				}
+			}
+		}
+	}
 	h.vacuity()
 }
 
@@ -709,12 +786,16 @@ var tallies = map[string]int64{}
 // judge runs a case twice and records everything.
 func (h *harness) judge(c caseID) {
 	rec := h.rec
+	tl := tallies
+	if c.Fault != "" {
+		tl = faultTallies // faulted cases fail often by design: kept out of the vacuity ratios
+	}
 	sh := h.fx.shape(c.Shape)
 	o1 := h.runCase(c)
 	o2 := h.runCase(c)
 	rec.Eval(1)
 	rec.Count("apply_runs", 2)
-	tallies["cases"]++
+	tl["cases"]++
 	report := func(key, msg string) {
 		rec.Count("violations."+key, 1)
 		if f, err := os.OpenFile(filepath.Join(rec.Scratch, "violations.jsonl"), os.O_APPEND|os.O_CREATE|os.O_WRONLY, 0o644); err == nil {
@@ -751,15 +832,28 @@ func (h *harness) judge(c caseID) {
 	} else if o1.err == "" && o1.rootDigest != o2.rootDigest {
 		report("nondeterministic-digest", fmt.Sprintf("two runs on identical fresh inputs gave %s and %s", o1.rootDigest, o2.rootDigest))
 	}
+	if c.Fault != "" {
+		rec.Count("fault.cases", 1)
+		if o1.faultFired {
+			rec.Count("fault.cases_in_which_the_fault_was_delivered", 1)
+			if o1.err == "" {
+				rec.Count("fault.delivered_and_apply_succeeded", 1)
+				faultTallies["ok"]++
+			} else {
+				rec.Count("fault.delivered_and_apply_failed", 1)
+				faultTallies["err"]++
+			}
+		}
+	}
 	if o1.err != "" {
 		rec.Count("apply_errors", 1)
-		tallies["errors"]++
+		tl["errors"]++
 		rec.Count("error_class: "+errClass(o1.err), 1)
 		return
 	}
 	rec.Count("apply_ok", 1)
 	rec.Count("manifests_written_checked_for_reachability", int64(o1.written))
-	tallies["ok"]++
+	tl["ok"]++
 	if !o1.rootFound {
 		rec.Count("result_not_found_at_target", 1)
 		return
@@ -773,14 +867,14 @@ func (h *harness) judge(c caseID) {
 	}
 	if allNoop {
 		rec.Count("noop_programs_checked", 1)
-		tallies["noop"]++
+		tl["noop"]++
 		if o1.rootDigest != o1.srcDigest {
 			report("noop-changed-digest", fmt.Sprintf("every option of the program is a tabulated no-op for shape %s, yet the result is %s, the source %s", sh.name, o1.rootDigest, o1.srcDigest))
 		}
 	}
 	if o1.rootDigest != o1.srcDigest {
 		rec.Count("digest_changed", 1)
-		tallies["changed"]++
+		tl["changed"]++
 		if o1.counts["manifests_audited"] > 0 {
 			rec.Distinct(c.String())
 		}
@@ -838,6 +932,8 @@ func (h *harness) selfTest(r *olareg.Server) {
 		}
 	}
 }
+
+var faultTallies = map[string]int64{}
 
 func (h *harness) vacuity() {
 	n := tallies["cases"]
